@@ -129,6 +129,8 @@ CHECKS['C05'] = dict(
     stages=[
         dict(name='step', harness=H('c05', ['harness/c05_step.cpp'], model=True, cflags=['-fno-access-control']),
              plan={'quick': 'step=60000', 'thorough': 'step=6000000'}),
+        dict(name='fuzz', kind='fuzz', target='step', harness=H('fz_step', ['fuzz/fuzz_step_vs_model.cpp'], variant='fuzz', model=True, cflags=['-fno-access-control']), max_len=800,
+             runs={'quick': 240000, 'thorough': 20000000}),
         dict(name='prog', harness=H('c05p', ['harness/c05_prog.cpp'], model=True, ldflags=PROG_LD),
              plan={'quick': 'prog_vs_model=480', 'thorough': 'prog_vs_model=40000'}),
     ],
